@@ -575,7 +575,7 @@ def run(rep, tier, seed):
     nt = 4 if thorough else 3
     mats, shaperoles = inventory(rep, nt)
     binds = bindings(mats, shaperoles, thorough, nt, rng if thorough else None)
-    n, nontriv, nedges, divs, sample = replay_bindings(rep, g, states, binds, 40 if thorough else (8 if _SELFTEST else 24), rng)
+    n, nontriv, nedges, divs, sample = replay_bindings(rep, g, states, binds, 20 if thorough else (8 if _SELFTEST else 24), rng)
     if n == 0:
         raise tlc.MachineryError("nothing replayed")
     rep.add_replay("edges-on-shape-x-material-pairs", n, nontriv,
@@ -598,7 +598,7 @@ def run(rep, tier, seed):
     if not thorough:
         tb = tb[:: max(1, len(tb) // (60 if _SELFTEST else 120))]
     else:
-        tb = tb[:: max(1, len(tb) // 700)]
+        tb = tb[::3]
     traces = check_traces(rep, tb, 30 if thorough else 14, seed, "random-call-histories")
     if traces:
         rep.sample({"kind": "trace", "id": traces[0]["id"], "const": traces[0]["const"], "events": traces[0]["ev"][:3]})
@@ -758,8 +758,24 @@ def selftest():
         mult = self.getDimension("mult", cold=cold, Tc=Tc)
         return math.pi * (od ** 2 - idiam ** 2) / 4.0 * mult
 
+    def set_temperature_from_input(self, temperatureInC):
+        self.temperatureInC = float(temperatureInC)
+        self.changeNDensByFactor(self.material.getThermalExpansionDensityReduction(self.inputTemperatureInC, self.temperatureInC))
+        self.clearLinkedCache()
+
+    def unshaped_area_linear(self, cold=False, Tc=None):
+        if cold:
+            return self.p.area
+        return self.getThermalExpansionFactor(self.temperatureInC if Tc is None else Tc) * self.p.area
+
+    from armi.materials.uZr import UZr
+    from armi.reactor import components as comps
+
     P = patched
     mutants = [
+        ("setTemperature reduces from Tinput instead of the previous T", lambda: P(C, "setTemperature", set_temperature_from_input)),
+        ("UZr only: density reduction with exponent 3", lambda: P(UZr, "getThermalExpansionDensityReduction", reduction_cubed)),
+        ("UnshapedComponent area grows linearly", lambda: P(comps.UnshapedComponent, "getComponentArea", unshaped_area_linear)),
         ("density reduction with exponent 3", lambda: P(M, "getThermalExpansionDensityReduction", reduction_cubed)),
         ("density reduction with (prev, new) swapped", lambda: P(M, "getThermalExpansionDensityReduction", reduction_swapped)),
         ("linearExpansionFactor not relative to T0 (additive)", lambda: P(M, "linearExpansionFactor", factor_additive)),
@@ -779,6 +795,54 @@ def selftest():
         ("HT9.linearExpansionPercent not a function of T", lambda: P(HT9, "linearExpansionPercent", ht9_percent_broken)),
     ]
     try:
-        return run_mutants(mutants, detect)
+        rc = run_mutants(mutants, detect)
+        return max(rc, trace_validator_selftest())
     finally:
         _SELFTEST = False
+
+
+def trace_validator_selftest():
+    """The trace validator must reject a recorded history with one field corrupted or one event removed."""
+    import copy
+
+    mats4, shaperoles = inventory(None, 4)
+    tb = bindings(mats4, shaperoles, False, 4)[::9]
+    traces, _ = record_traces(tb, 12, random.Random(5))
+    good = [t for t in traces if len(t["ev"]) >= 4 and all("exception" not in e["post"] for e in t["ev"])]
+    bad, _ = tracecheck.validate("ThermalExpansion_trace", "ThermalExpansion_trace.cfg", MODDIR, good, timeout=3000)
+    ok_ids = {t["id"] for t in good} - {b["trace"]["id"] for b in bad}
+    variants = []
+    for t in good:
+        if t["id"] not in ok_ids:
+            continue
+        a = copy.deepcopy(t)
+        a["id"] += "-err"
+        a["ev"][1]["post"]["err"] = "" if a["ev"][1]["post"]["err"] else "RuntimeError"
+        b = copy.deepcopy(t)
+        b["id"] += "-T"
+        b["ev"][2]["post"]["T"][0] = b["ev"][2]["post"]["T"][0] % 4 + 1
+        variants += [a, b]
+        prev = t["const"]["T0"]
+        for k, e in enumerate(t["ev"][:-1]):
+            nxt = t["ev"][k + 1]["a"]
+            # (a dropped setTemperature that is immediately overwritten on the same component is, by path independence,
+            #  again a behaviour of the specification -- not a corruption)
+            if e["a"]["n"] == "SetTemperature" and e["post"]["T"] != prev and not (
+                    nxt["n"] == "SetTemperature" and nxt["c"] == e["a"]["c"]):
+                c = copy.deepcopy(t)
+                c["id"] += "-drop"
+                del c["ev"][k]
+                variants.append(c)
+                break
+            prev = e["post"]["T"]
+    bad, _ = tracecheck.validate("ThermalExpansion_trace", "ThermalExpansion_trace.cfg", MODDIR, variants, timeout=3000)
+    rejected = {b["trace"]["id"] for b in bad}
+    missed = [v["id"] for v in variants if v["id"] not in rejected]
+    for kind in ("err", "T", "drop"):
+        tot = [v for v in variants if v["id"].endswith("-" + kind)]
+        m = [v for v in missed if v.endswith("-" + kind)]
+        print("%s  corrupted recorded histories (%s): %d of %d rejected by TLC" % ("caught " if not m and tot else "MISSED ", {
+            "err": "refusal flag flipped", "T": "temperature index changed", "drop": "one setTemperature event removed"}[kind],
+            len(tot) - len(m), len(tot)))
+    print("trace validator: %d clean histories accepted of %d" % (len(ok_ids), len(good)))
+    return 0 if not missed and variants and len(ok_ids) == len(good) else 1
